@@ -30,6 +30,9 @@ type scenario13 struct {
 	Vary    bool   // every goroutine's table has another length (the selector text is the same)
 	Shared  bool   // one document object read by every goroutine
 	Fresh   bool   // selector texts no goroutine has used before (cache insertions)
+	Cold    bool   // nothing is evaluated before the goroutines start, and every round begins right after a
+	// RegisterImmediateFunction (which has returned): whatever the library derives lazily from its registries
+	// is derived by the concurrent queries themselves. The expectation is written down, not obtained from the library
 	SQL     string // %s = table name
 	Options []string
 }
@@ -57,6 +60,13 @@ var scenarios13 = []scenario13{
 	{Name: "shared-subquery-async", Shared: true, SQL: "SELECT a, (SELECT ASYNC.slow(p) AS v, SPINASYNC.slow(p) FROM n) AS r FROM %s"},
 	{Name: "separate-derived-async", SQL: "SELECT * FROM (SELECT a, ASYNC.slow(a) AS v FROM %s) x"},
 	{Name: "separate-async", SQL: "SELECT a, ASYNC.slow(a) AS v FROM %s"},
+	{Name: "shared-star-orderby", Shared: true, SQL: "SELECT * FROM %s ORDER BY a DESC"},
+	{Name: "shared-star", Shared: true, SQL: "SELECT * FROM %s"},
+	{Name: "shared-star-limit", Shared: true, SQL: "SELECT * FROM %s LIMIT 2 OFFSET 1"},
+	{Name: "shared-distinct-orderby", Shared: true, SQL: "SELECT DISTINCT g FROM %s ORDER BY g DESC"},
+	{Name: "shared-unaliased-join", Shared: true, SQL: "SELECT * FROM %s JOIN u ON a = c"},
+	{Name: "cold-functions", Cold: true, SQL: "SELECT CONCAT(s, 'x') AS v, IF(a > 3, 'hi', 'lo') AS w FROM %s"},
+	{Name: "cold-functions-shared", Cold: true, Shared: true, SQL: "SELECT TO_UPPER(s) AS v, ASYNC.slow(a) AS w FROM %s WHERE a < 3"},
 	{Name: "shared-async", Shared: true, SQL: "SELECT a, ASYNC.slow(a) AS v, SPINASYNC.slow(a) FROM %s"},
 }
 
@@ -104,7 +114,21 @@ func RunScenario13(name string, n, iters int) int {
 		return out.Rows
 	}
 	shared := doc13("t")
-	wantShared := expect("t")
+	var wantShared []any
+	if sc.Cold {
+		for i := 1; i <= 6; i++ {
+			switch sc.Name {
+			case "cold-functions":
+				wantShared = append(wantShared, map[string]any{"v": fmt.Sprintf("s%dx", i), "w": map[bool]string{true: "hi", false: "lo"}[i > 3]})
+			case "cold-functions-shared":
+				if i < 3 {
+					wantShared = append(wantShared, map[string]any{"v": fmt.Sprintf("S%d", i), "w": float64(i * 10)})
+				}
+			}
+		}
+		return runCold13(sc, n, iters, shared, wantShared)
+	}
+	wantShared = expect("t")
 	var mismatches int64
 	var first atomic.Value
 	var wg sync.WaitGroup
@@ -172,6 +196,57 @@ func RunScenario13(name string, n, iters int) int {
 	case <-time.After(60 * time.Second):
 		fmt.Fprintln(os.Stderr, "DEADLOCK-OR-HANG: goroutines did not finish within 60s")
 		return 5
+	}
+	if !Equal(any(shared), any(doc13("t"))) {
+		fmt.Fprintln(os.Stderr, "SHARED-DOCUMENT-MODIFIED")
+		return 6
+	}
+	if mismatches > 0 {
+		fmt.Fprintln(os.Stderr, "CROSSTALK", mismatches, first.Load())
+		return 4
+	}
+	return 0
+}
+
+// runCold13: rounds of { RegisterImmediateFunction ; n goroutines x 2 queries }, nothing evaluated in between
+func runCold13(sc *scenario13, n, iters int, shared map[string]any, want []any) int {
+	var mismatches int64
+	var first atomic.Value
+	rounds := iters/4 + 1
+	for round := 0; round < rounds; round++ {
+		genql.RegisterImmediateFunction(fmt.Sprintf("cold13_%d", round), func(q *genql.Query, cur genql.Map, fo *genql.FunctionOptions, args []any) (any, error) {
+			return nil, nil
+		})
+		var wg sync.WaitGroup
+		start := make(chan struct{})
+		for g := 0; g < n; g++ {
+			wg.Add(1)
+			go func(g int) {
+				defer wg.Done()
+				<-start
+				for i := 0; i < 2; i++ {
+					doc := shared
+					if !sc.Shared {
+						doc = doc13("t")
+					}
+					out := Run(doc, fmt.Sprintf(sc.SQL, "t"), false, Opts(sc.Options, nil, nil)...)
+					if out.Err != nil || out.Panic != nil || Canon(any(out.Rows)) != Canon(any(want)) {
+						if atomic.AddInt64(&mismatches, 1) == 1 {
+							first.Store(fmt.Sprintf("round %d goroutine %d: got %s, expected %s", round, g, out.Describe(), Canon(any(want))))
+						}
+					}
+				}
+			}(g)
+		}
+		close(start)
+		done := make(chan struct{})
+		go func() { wg.Wait(); close(done) }()
+		select {
+		case <-done:
+		case <-time.After(60 * time.Second):
+			fmt.Fprintln(os.Stderr, "DEADLOCK-OR-HANG: goroutines did not finish within 60s")
+			return 5
+		}
 	}
 	if !Equal(any(shared), any(doc13("t"))) {
 		fmt.Fprintln(os.Stderr, "SHARED-DOCUMENT-MODIFIED")
